@@ -105,3 +105,13 @@ Qed.
 Theorem C03_json_one_line_per_document_with_floats :
   forall vs : list jval, count_occ N.eq_dec (jwrite_docs json_f64 vs) 10%N = length vs.
 Proof. exact (one_line_per_document json_f64 json_f64_no_newline). Qed.
+
+(* For EVERY JSON input that JSON -> JSON translates (theories/JsonIdemProofs.v):
+   the output has exactly one line per document of the input, however the input
+   was spaced and broken into lines. *)
+From XtModel Require Import JsonIdemProofs.
+
+Theorem C03_json_to_json_one_line_per_input_document :
+  forall inp o : bytes, json_to_json_f inp = Some o ->
+    count_occ N.eq_dec o 10%N = length (fst (json_slice inp)).
+Proof. exact json_to_json_one_line_per_input_document. Qed.
